@@ -527,6 +527,12 @@ def main():
                 c.update(kind=kind, vary_delay=True, via='api', k=k0 + 2 + j, hv='default', bin='plain', ext=0, **base)
                 c['bpv'], c['bs'] = (4, None)
                 cases.append(c)
+            # a 2D line in the (1, 4, N) layout whose traces span SEVERAL z-blocks (the trace-range loader path of the export)
+            c = gen_case(3000, True)
+            c.update(kind='2d', nt=10, ns=600, bpv=16, bs=(1, 4, -1), via='api', k=len(cases), hv='default', bin='plain', ext=0,
+                     vary_delay=False, dt_us=2000, t0=0)
+            c.pop('scalar', None)
+            cases.append(c)
         if not a.replay:
             k0 = len(cases)
             for j, (kind, scalar, t0) in enumerate([('regular', -100, -200), ('regular', -100, 0), ('2d', 1, 100), ('irregular', -1, -8),
